@@ -35,9 +35,18 @@ func genStress(t *rapid.T) StressCase {
 	for b := 0; b < nb; b++ {
 		k := rapid.IntRange(2, 8).Draw(t, "writers")
 		var batch []SW
+		// One batch in three is what the end of a download looks like: several peers deliver
+		// the same piece at the same moment, all of them (or all but one) with the right bytes.
+		dup := rapid.IntRange(0, 2).Draw(t, "duplicates") == 0
+		dupIndex := genIndexCode(t, n)
 		for i := 0; i < k; i++ {
 			w := SW{Index: genIndexCode(t, n), Arg: rapid.IntRange(0, 4096).Draw(t, "arg")}
-			if rapid.IntRange(0, 9).Draw(t, "correct") >= 6 {
+			if dup {
+				w.Index = dupIndex
+				if i == k-1 && rapid.IntRange(0, 3).Draw(t, "oneWrong") == 0 {
+					w.Mode = rapid.IntRange(1, numModes-1).Draw(t, "mode")
+				}
+			} else if rapid.IntRange(0, 9).Draw(t, "correct") >= 6 {
 				w.Mode = rapid.IntRange(1, numModes-1).Draw(t, "mode")
 			}
 			batch = append(batch, w)
